@@ -57,9 +57,13 @@ Definition ma_hdr (a : mp4_atom) := match a with MAtom _ _ _ h _ => h end.      
 Definition ma_kids (a : mp4_atom) := match a with MAtom _ _ _ _ k => k end.     (* Atom.children *)
 Definition ma_end (a : mp4_atom) := ma_off a + ma_len a.
 
-(* f.seek(p); f.read(n) for 0 <= n (clamped first, so that absurd positions / lengths taken from a damaged file cost nothing) *)
-Definition mp4_rd (f : list Z) (p n : Z) : list Z :=
-  if zlen f <=? p then [] else zslice p (p + Z.min n (zlen f - p)) f.
+(* f.seek(p); f.read(n) for 0 <= n.  Counted down in Z along the list (= zslice p (p + n) f, proved in Fam_mp4_bytes), so that
+   absurd positions / lengths taken from a damaged file cost no more than the file length *)
+Fixpoint mp4_take (n : Z) (l : list Z) : list Z :=
+  match l with [] => [] | x :: r => if n <=? 0 then [] else x :: mp4_take (n - 1) r end.
+Fixpoint mp4_drop (n : Z) (l : list Z) : list Z :=
+  match l with [] => [] | x :: r => if n <=? 0 then l else mp4_drop (n - 1) r end.
+Definition mp4_rd (f : list Z) (p n : Z) : list Z := mp4_take n (mp4_drop p f).
 
 (* ------------------------------------------------------------------ MIRROR of Atom.__init__ / Atoms.__init__ *)
 (* length and header size from the 8 header bytes h read at pos (AtomError -> mutagen.mp4.error = EMutagen) *)
